@@ -917,6 +917,7 @@ func c02BIP341(r *core.Run, p *core.Program) {
 	guardOb(r, p, rule, "checker/explicit-default-fails", "a 65-byte signature with hash type 0 fails", an.GuardSpec{Fn: cs, Fail: bf, Match: an.MatchCmpConst(0, token.EQL, "param#1", "elem")})
 	guardOb(r, p, rule, "checker/size", "a signature that is neither 64 nor 65 bytes fails", an.GuardSpec{Fn: cs, Fail: bf, Match: an.MatchCmpConst(65, token.NEQ, "len", "param#1")})
 	c02SchnorrArgs(r, p, rule)
+	c01AnnexHash(r, p, rule) // the annex hash is part of the BIP341 message
 }
 
 // evalSmall folds +, <<, | over small constants.
